@@ -32,7 +32,10 @@ def linear_solvers(tier="quick", seed=0, only=None):
         J = rng.normal(size=(m, n))
         K = np.block([[H, J.T], [J, -np.eye(m)]])  # symmetric indefinite, well conditioned
         U = rng.normal(size=(n, n)) + n * np.eye(n)  # unsymmetric, diagonally dominant
-        for kind, A, sym in (("kkt", K, True), ("unsym", U, False)):
+        # the same KKT matrix with a tiny dual regularisation (-delta I, delta = 1/rho for a large penalty): still well
+        # conditioned (J has full row rank), but its diagonal spans eight orders of magnitude
+        Kd = np.block([[H, J.T], [J, -1e-8 * np.eye(m)]])
+        for kind, A, sym in (("kkt", K, True), ("kkt_small_regularisation", Kd, True), ("unsym", U, False)):
             N_ = A.shape[0]
             b = rng.normal(size=N_)
             for fmt in conv:
